@@ -104,6 +104,10 @@ func (u *Unit) evalCall(st *State, call *ast.CallExpr) Val {
 		return u.inlineBody(st, lit.Type, lit.Body, nil, nil, args, u.typeOf(lit).(*types.Signature), "closure")
 	}
 	fn := u.calleeFunc(call)
+	if fn != nil && fn.Name() == "verifPoint" && len(call.Args) == 1 {
+		u.verifPoint(st, call)
+		return Val{Kind: KTuple}
+	}
 	if fn == nil {
 		// call through a function value
 		fv := u.eval(st, fun)
@@ -327,6 +331,15 @@ func (u *Unit) callContract(st *State, c *Contract, fn *types.Func, recv *Val, a
 			continue
 		}
 		st.assume(t)
+	}
+	for _, e := range c.ProgEns {
+		t, err := u.specBool(penv, e)
+		if err != nil {
+			u.reject("contract error: %v", err)
+			continue
+		}
+		st.decPC = append(st.decPC, t)
+		u.note("assumptions", "termination measures assume progress of "+funcKey(fn)+": "+e.Text)
 	}
 	if len(c.GhostEns) > 0 {
 		u.note("assumptions", "ghost definitions (ghost_ensures, assumed not checked) of "+funcKey(fn))
@@ -1065,4 +1078,34 @@ func (u *Unit) evalAppend(st *State, call *ast.CallExpr) Val {
 		u.setElemArray(st, el, arr, c)
 	}
 	return Val{Kind: KSlice, T: T, Arr: arr, Off: off, Len: tAdd(s.Len, tInt(k)), Cap: ncap}
+}
+
+
+// verifPoint(k): in-body assume/assert clauses of lemma functions (verif-only code in the contract files).
+func (u *Unit) verifPoint(st *State, call *ast.CallExpr) {
+	kv := u.eval(st, call.Args[0])
+	k64, ok := isIntLit(kv.S)
+	r := u.root()
+	if !ok || r.contract == nil {
+		u.reject("verifPoint needs a constant argument")
+		return
+	}
+	k := int(k64)
+	for i, pc := range r.contract.Points[k] {
+		env := u.invEnv(st, call.Pos())
+		env.old = st.old
+		t, err := u.specBool(env, pc.Clause)
+		if err != nil {
+			u.reject("contract error: %v", err)
+			continue
+		}
+		if pc.Assume {
+			st.assume(t)
+			u.note("assumptions", fmt.Sprintf("lemma hypothesis at point %d of %s: %s", k, r.name, pc.Text))
+		} else {
+			for pi, pt := range splitGoal(t) {
+				u.oblige(st, "assert", fmt.Sprintf("p%d.%d.%d", k, i+1, pi+1), pt, call.Pos())
+			}
+		}
+	}
 }
